@@ -1,10 +1,12 @@
 (** C11 — the unclean-shutdown flag brackets every write session.  Proved about the model's mount / close:
     marking dirty leaves the in-memory state dirty for every FAT type; [mark_clean] on FAT16/32 writes every FAT copy
     BEFORE any boot-sector byte (so the boot-sector flag, set first at mount, is the last mark to go).
+    C11_mark_on_device: after [mark_dirty] (what a read-write mount does before anything else) the boot sector ON THE
+    DEVICE parses to a header whose dirty flag is set — the mark is on the medium, not only in memory.
     C11_bracket over arbitrary histories (every prefix of the session log is marked or complete) is NOT proved as one
     theorem; it is checked on every prefix of the real write log, whose bytes equal the model's. *)
 From Coq Require Import ZArith List Bool.
-From PyFatV Require Import Base.Bytes Base.PyEnv Gen.Pure Model.Codec Model.Dir Model.FS Proofs.Session.
+From PyFatV Require Import Base.Bytes Base.PyEnv Gen.Pure Model.Codec Model.Dir Model.FS Proofs.Session Proofs.Device Proofs.DirCodec Proofs.DirState Proofs.FatState Proofs.HdrState.
 Import ListNotations.
 Open Scope Z_scope.
 
@@ -18,3 +20,13 @@ Theorem C11_close_order : forall s s' m, shutdown_mask (ft s) = Some m -> mark_c
     (2 <= length boot)%nat.
 Proof. exact mark_clean_order. Qed.
 Print Assumptions C11_close_order.
+
+Theorem C11_mark_on_device : forall s s',
+  dev_ok (s_dev s) -> hdr_wf (s_h s) -> 0 <= BS_Reserved1 (s_h s) < 256 -> 512 <= s_dsize s ->
+  (ft s = Gen.FAT_TYPE_FAT32 -> 512 <= BPB_BkBootSec (s_h s) * bps s) ->
+  0 <= fat_start s -> 0 <= BPB_NumFATs (s_h s) -> fat_start s + BPB_NumFATs (s_h s) * fat_bytes s <= s_dsize s ->
+  (forall v, lenZ (pack_fat (ft s) (updZ (s_fat s) 1 v) (s_hi s)) <= fat_bytes s) ->
+  mark_dirty s = Ok s' ->
+  parse_hdr (rd s' 0 512) = s_h s' /\ flag_set (s_h s') = true /\ flag_set (parse_hdr (rd s' 0 512)) = true.
+Proof. exact mark_dirty_on_device. Qed.
+Print Assumptions C11_mark_on_device.
